@@ -236,6 +236,12 @@ def run(ctx):
         return ctx.finish("model_checking", "replay of one recorded behaviour")
 
     thorough = not ctx.quick()
+    only = ctx.options.get("only")
+    if only:   # run as a part of another property's check (C16: the history-pruner migration is anchored there)
+        for name in only:
+            _guard(ctx, {"runner": runner_part, "blocktx": blocktx_part, "enum": enum_part,
+                         "historypruner": historypruner_part, "extras": extras_part}[name], binary, thorough)
+        return ctx.finish("model_checking", "parts %s of the C18 check" % ",".join(only))
     _guard(ctx, runner_part, binary, thorough)
     _guard(ctx, blocktx_part, binary, thorough)
     _guard(ctx, enum_part, binary, thorough)
